@@ -312,7 +312,7 @@ def gen_stack_cases(r, tier):
     ]
     cases = []
     for d in fam:
-        for gl in ((300, 40, 7) if not big else (300, 400, 40, 12, 7, 3)):
+        for gl in ((300, 40, 13) if not big else (300, 400, 40, 13, 7, 3)):
             for _ in range(1 if not big else 3):
                 ops = [["create"]] * 4 + [["map", 0], ["map", 1], ["map", 2], ["map", 3], ["mutate", 0], ["map", 4], ["cross", 1, 2], ["map", 5], ["map", 6], ["map", 0]]
                 cases.append({"op": "rep", "decl": d, "rep": {"kind": "stack", "gene_length": gl}, "seed": r.randrange(10**6), "ops": ops})
